@@ -120,6 +120,10 @@ type c18Sample struct {
 // C18: metadata is read without consuming the image body.
 func C18(tier string) {
 	r := ev.Begin("C18", tier, "model_checking")
+	envxSelfTest(r, "harness")
+	if r.NViolations() > 0 {
+		r.Finish()
+	}
 	r.NotExhaustive()
 	tails := []int{0, 1, 4095, 4096, 4097, 65536, 1 << 20, 64 << 20}
 	if tier == "thorough" {
